@@ -11,8 +11,10 @@ Theorem C11_emit_fits : forall (pat : bytes) (p : prog),
 Proof. exact regcomp_fits. Qed.
 Print Assumptions C11_emit_fits.
 
-(* the size lemma itself, for every tree with well-formed counts *)
-Theorem C11_emit_fits_tree : forall t : node, wf_node t -> (Z.of_nat (nlen t) <= count t)%Z.
+(* the size lemma itself, for every tree with well-formed counts: the (saturating) estimate dominates
+   the emitted length unless it has reached the limit NINST, in which case regcomp rejects *)
+Theorem C11_emit_fits_tree : forall t : node, wf_node t ->
+  (Z.of_nat (nlen t) <= count t)%Z \/ (0 <= NINST /\ NINST <= count t)%Z.
 Proof. exact emit_fits. Qed.
 Print Assumptions C11_emit_fits_tree.
 
